@@ -13,7 +13,8 @@ mutual
 def outputTextIds (A : CAtoms) : Node → List Nat
   | .text i _ => [i]
   | .other _ _ => []
-  | .elem i t attrs ks => if visible A i t attrs then outputTextIdsL A ks else []
+  | .elem i t attrs ks =>
+    if t == "script" || t == "style" then [] else if visible A i t attrs then outputTextIdsL A ks else []
 def outputTextIdsL (A : CAtoms) : List Node → List Nat
   | [] => []
   | k :: ks => outputTextIds A k ++ outputTextIdsL A ks
@@ -36,14 +37,125 @@ theorem outputTextIds_sublist (A : CAtoms) : (n : Node) → (outputTextIds A n).
   | .other _ _ => by simp [outputTextIds, Node.visibleOnlyTextIds]
   | .elem i t attrs ks => by
     simp only [outputTextIds, Node.visibleOnlyTextIds]
-    cases h : visible A i t attrs
-    · simp
-    · simpa using outputTextIdsL_sublist A ks
+    split
+    · exact List.nil_sublist _
+    · cases h : visible A i t attrs
+      · simp
+      · simpa using outputTextIdsL_sublist A ks
 theorem outputTextIdsL_sublist (A : CAtoms) : (ks : List Node) → (outputTextIdsL A ks).Sublist (visibleOnlyTextIdsL A ks)
   | [] => by simp [outputTextIdsL, visibleOnlyTextIdsL]
   | k :: ks => by
     simp only [outputTextIdsL, visibleOnlyTextIdsL]
     exact List.Sublist.append (outputTextIds_sublist A k) (outputTextIdsL_sublist A ks)
 end
+
+end Distill
+
+namespace Distill
+
+mutual
+/-- tags of the elements `GetOutputNodes` collects -/
+def outputTags (A : CAtoms) : Node → List String
+  | .text _ _ => []
+  | .other _ _ => []
+  | .elem i t attrs ks =>
+    if t == "script" || t == "style" then [] else if visible A i t attrs then t :: outputTagsL A ks else []
+def outputTagsL (A : CAtoms) : List Node → List String
+  | [] => []
+  | k :: ks => outputTags A k ++ outputTagsL A ks
+end
+
+mutual
+/-- no script or style element is ever collected, whatever the atoms say -/
+theorem outputTags_no_script (A : CAtoms) : (n : Node) → ∀ t ∈ outputTags A n, t ≠ "script" ∧ t ≠ "style"
+  | .text _ _ => by simp [outputTags]
+  | .other _ _ => by simp [outputTags]
+  | .elem i t attrs ks => by
+    intro x hx
+    simp only [outputTags] at hx
+    split at hx
+    · simp at hx
+    · rename_i hne
+      split at hx
+      · rcases List.mem_cons.mp hx with h | h
+        · subst h; simpa using hne
+        · exact outputTagsL_no_script A ks x h
+      · simp at hx
+theorem outputTagsL_no_script (A : CAtoms) : (ks : List Node) → ∀ t ∈ outputTagsL A ks, t ≠ "script" ∧ t ≠ "style"
+  | [] => by simp [outputTagsL]
+  | k :: ks => by
+    intro x hx
+    simp only [outputTagsL, List.mem_append] at hx
+    rcases hx with h | h
+    · exact outputTags_no_script A k x h
+    · exact outputTagsL_no_script A ks x h
+end
+
+/-! ### attribute stripping (`domutil.StripAttributes`) over the generated tables -/
+
+def stripAlwaysKeys : List String :=
+  match Gen.stripCases with
+  | (ks, "continue") :: _ => ks
+  | _ => []
+
+def stripSizeKeys : List String :=
+  match Gen.stripCases with
+  | _ :: (ks, "if !elementAllowedToHaveSize { continue }") :: _ => ks
+  | _ => []
+
+/-- an attribute survives iff it is not presentational/identifying, not a size attribute on an
+element that may not carry one, and is on the allow list -/
+def keepAttr (tag : String) (a : Attr) : Bool :=
+  !stripAlwaysKeys.contains a.key &&
+  !(stripSizeKeys.contains a.key && !Gen.elementWithSizeAttr.contains tag) &&
+  Gen.allowedAttributes.contains a.key
+
+mutual
+/-- `StripAttributes(node)`: the node and every descendant element -/
+def stripNode : Node → Node
+  | .text i d => .text i d
+  | .other i k => .other i k
+  | .elem i t attrs ks => .elem i t (attrs.filter (keepAttr t)) (stripNodeL ks)
+def stripNodeL : List Node → List Node
+  | [] => []
+  | k :: ks => stripNode k :: stripNodeL ks
+end
+
+/-! ### making URLs absolute (`MakeAllLinksAbsolute`, `MakeAllSrcAttributesAbsolute`, `MakeAllSrcSetAbsolute`)
+
+`abs` is the atom `stringutil.CreateAbsoluteURL(·, pageURL)`; `absSet` rewrites every srcset
+candidate with it (the srcset regexp is an atom). -/
+
+def srcTags : List String :=
+  match Gen.srcTagCases with
+  | (ks, _) :: _ => ks
+  | _ => []
+
+/-- what `MakeAllLinksAbsolute` does to one attribute of an element with tag `tag`
+(attribute keys are unique on a parsed element) -/
+def absOne (abs absSet : String → String) (tag : String) (a : Attr) : Attr :=
+  if a.key == "href" && tag == "a" && a.val != "" then { a with val := abs a.val }
+  else if a.key == "poster" && tag == "video" && a.val != "" then { a with val := abs a.val }
+  else if a.key == "src" && srcTags.contains tag && a.val != "" then { a with val := abs a.val }
+  else if a.key == "srcset" then { a with val := absSet a.val }
+  else a
+
+/-- attribute rewriting `MakeAllLinksAbsolute` performs on one element: an empty srcset is
+removed, every other URL-bearing attribute is rewritten in place -/
+def absAttrs (abs absSet : String → String) (tag : String) (attrs : List Attr) : List Attr :=
+  (attrs.filter (fun a => !(a.key == "srcset" && a.val == ""))).map (absOne abs absSet tag)
+
+mutual
+def absNode (abs absSet : String → String) : Node → Node
+  | .text i d => .text i d
+  | .other i k => .other i k
+  | .elem i t attrs ks => .elem i t (absAttrs abs absSet t attrs) (absNodeL abs absSet ks)
+def absNodeL (abs absSet : String → String) : List Node → List Node
+  | [] => []
+  | k :: ks => absNode abs absSet k :: absNodeL abs absSet ks
+end
+
+/-- the processed clone every Text / table / caption rendering serialises: absolutise, then strip -/
+def processClone (abs absSet : String → String) (n : Node) : Node := stripNode (absNode abs absSet n)
 
 end Distill
